@@ -23,6 +23,10 @@ static bool g_rec = false;
 static std::map<int, std::string> g_fd;  // fd -> path (only files opened for writing while recording)
 
 static bool tracked_path(const char *p) { return p && strstr(p, "cc_") != NULL; }
+// which state file is under test: the module's ("cc_out.colvars.state") or the one a single bias saves on request
+// ("cv bias m save <prefix>" -> colvarbias::write_state_prefix(), "cc_bias.colvars.state")
+static bool g_bias_mode = false;
+static std::string state_name() { return g_bias_mode ? "cc_bias.colvars.state" : "cc_out.colvars.state"; }
 
 extern "C" {
 typedef FILE *(*fopen_t)(const char *, const char *);
@@ -107,7 +111,7 @@ static const char *CONF =
     "colvarsRestartFrequency 2\n"
     "colvar {\n name d\n width 0.5\n lowerBoundary 1.0\n upperBoundary 3.0\n distance {\n group1 { atomNumbers 1 }\n group2 { atomNumbers 2 }\n }\n}\n"
     "harmonic {\n colvars d\n centers 1.0\n targetCenters 3.0\n targetNumSteps 6\n forceConstant 2.0\n outputAccumulatedWork on\n}\n"
-    "metadynamics {\n colvars d\n hillWeight 0.5\n hillWidth 1.0\n newHillFrequency 1\n}\n";
+    "metadynamics {\n name m\n colvars d\n hillWeight 0.5\n hillWidth 1.0\n newHillFrequency 1\n}\n";
 
 static void place(vproxy &px, long s)
 {
@@ -147,11 +151,11 @@ static void normalise_log(std::vector<Ev> &log)
     else if (e.op == 2) {
       auto it = now.find(e.a);
       if (it != now.end()) { e.a = it->second; now.erase(it); }
-      e.completes = (base_of(e.a) == "cc_out.colvars.state");
+      e.completes = (base_of(e.a) == state_name());
     } else if (e.op == 3) {
       bool still_open = false;
       for (auto &kv : now) if (kv.second == e.a) { kv.second = e.b; still_open = true; }
-      e.completes = !still_open && base_of(e.b) == "cc_out.colvars.state";
+      e.completes = !still_open && base_of(e.b) == state_name();
     }
   }
 }
@@ -164,13 +168,22 @@ static std::string try_load(std::string const &content, std::string const &dir, 
   vproxy *px = new vproxy(2);
   place(*px, 0);
   if (px->config(CONF) != 0) { fprintf(stderr, "HARNESS-ERROR: loader config rejected\n"); exit(3); }
-  px->set_input_prefix(dir + "/cand");
-  cvm::clear_error();
-  int rc = px->colvars->setup_input();
-  int e = rc || cvm::get_error() || px->errtxt.size();
-  cvm::clear_error();
   std::string out;
-  if (!e) out = px->state_text();
+  int e = 0;
+  if (g_bias_mode) {
+    cvm::clear_error();
+    int rc = px->bias("m")->read_state_prefix(dir + "/cand");
+    e = rc || cvm::get_error() || px->errtxt.size();
+    cvm::clear_error();
+    if (!e) px->bias("m")->write_state_string(out);
+  } else {
+    px->set_input_prefix(dir + "/cand");
+    cvm::clear_error();
+    int rc = px->colvars->setup_input();
+    e = rc || cvm::get_error() || px->errtxt.size();
+    cvm::clear_error();
+    if (!e) out = px->state_text();
+  }
   steps_ok = 0;
   delete px;
   ::unlink(path.c_str());
@@ -197,7 +210,11 @@ static Recorded record_run(std::string const &dir, bool binary, long first_step,
   g_log.clear();
   g_fd.clear();
   g_rec = true;
-  for (long s = first_step; s <= last_step; s++) { place(*px, s); px->step(s); }
+  for (long s = first_step; s <= last_step; s++) {
+    place(*px, s);
+    px->step(s);
+    if (g_bias_mode && s % 2 == 0) px->bias("m")->write_state_prefix(dir + "/cc_bias");
+  }
   px->end_run();
   delete px;
   g_rec = false;
@@ -228,14 +245,17 @@ int main(int argc, char **argv)
   long bstride = thorough ? 1 : 5;
 
   Result total;
-  for (int binary = 0; binary <= 1; binary++) {
-    std::string rdir = scratch + "/cc_rec" + std::to_string(binary);
+  for (int pass = 0; pass <= 2; pass++) {
+    // pass 0: module state, text; 1: module state, binary; 2: the state file a single bias saves on request (text)
+    int binary = (pass == 1);
+    g_bias_mode = (pass == 2);
+    std::string rdir = scratch + "/cc_rec" + std::to_string(pass);
     clean_dir(rdir);
     Recorded rec = record_run(rdir, binary != 0, 0, 8, NULL, NULL);
     if (rec.completed.size() < 4) { fprintf(stderr, "HARNESS-ERROR: expected >= 4 completed state writes, got %zu (log %zu events)\n", rec.completed.size(), rec.log.size()); return 2; }
     // determinism of the recording: a second recording gives the same log
     {
-      std::string rdir2 = scratch + "/cc_rec" + std::to_string(binary) + "b";
+      std::string rdir2 = scratch + "/cc_rec" + std::to_string(pass) + "b";
       clean_dir(rdir2);
       Recorded rec2 = record_run(rdir2, binary != 0, 0, 8, NULL, NULL);
       bool same = rec2.log.size() == rec.log.size();
@@ -243,7 +263,7 @@ int main(int argc, char **argv)
         if (rec.log[i].op != rec2.log[i].op || base_of(rec.log[i].a) != base_of(rec2.log[i].a) || (rec.log[i].op == 1 && rec.log[i].b != rec2.log[i].b)) same = false;
       if (!same) { fprintf(stderr, "HARNESS-ERROR: operation log not reproducible\n"); return 2; }
     }
-    total.notes.push_back(std::string(binary ? "binary" : "text") + ": " + std::to_string(rec.log.size()) + " recorded file operations, " + std::to_string(rec.completed.size()) + " completed state writes");
+    total.notes.push_back(std::string(g_bias_mode ? "bias-level save, text" : (binary ? "binary" : "text")) + ": " + std::to_string(rec.log.size()) + " recorded file operations, " + std::to_string(rec.completed.size()) + " completed state writes");
 
     // crash points: (event index i, byte prefix n) = events [0,i) complete, plus n bytes of event i if it is a write
     struct CP { size_t i; long n; };
@@ -254,7 +274,7 @@ int main(int argc, char **argv)
         for (long n = 1; n < (long) rec.log[i].b.size(); n += bstride) cps.push_back({i, n});
     }
     // canonical texts of the completed states (through the same loader)
-    std::string ldir0 = scratch + "/cc_load_main" + std::to_string(binary);
+    std::string ldir0 = scratch + "/cc_load_main" + std::to_string(pass);
     clean_dir(ldir0);
     std::vector<std::string> canon;
     for (auto &c : rec.completed) {
@@ -265,7 +285,7 @@ int main(int argc, char **argv)
     }
 
     bool ok = run_sharded(args.jobs, [&](int shard, int nsh, Result &r) {
-      std::string ldir = scratch + "/cc_load" + std::to_string(binary) + "_" + std::to_string(shard);
+      std::string ldir = scratch + "/cc_load" + std::to_string(pass) + "_" + std::to_string(shard);
       clean_dir(ldir);
       for (size_t ci = shard; ci < cps.size(); ci += nsh) {
         CP const &cp = cps[ci];
@@ -278,10 +298,10 @@ int main(int argc, char **argv)
         std::string X, XO;
         bool hasX = false, hasXO = false;
         for (auto &kv : fs) {
-          if (base_of(kv.first) == "cc_out.colvars.state") { X = kv.second; hasX = true; }
-          if (base_of(kv.first) == "cc_out.colvars.state.old") { XO = kv.second; hasXO = true; }
+          if (base_of(kv.first) == state_name()) { X = kv.second; hasX = true; }
+          if (base_of(kv.first) == state_name() + ".old") { XO = kv.second; hasXO = true; }
         }
-        std::string det = std::string("{\"format\":\"") + (binary ? "binary" : "text") + "\",\"crash_after_operations\":" + std::to_string(cp.i) + ",\"bytes_of_next_write\":" + std::to_string(cp.n) +
+        std::string det = std::string("{\"format\":\"") + (binary ? "binary" : "text") + "\"," + (g_bias_mode ? "\"file\":\"state saved by one bias on request (cv bias m save)\"," : "") + "\"crash_after_operations\":" + std::to_string(cp.i) + ",\"bytes_of_next_write\":" + std::to_string(cp.n) +
                           ",\"completed_states_before\":" + std::to_string(closes) + ",\"state_file_bytes\":" + (hasX ? std::to_string(X.size()) : "null") + ",\"old_file_bytes\":" + (hasXO ? std::to_string(XO.size()) : "null");
         r.seen("states", fnv(X + "|" + XO + std::to_string(hasX) + std::to_string(hasXO)));
         if (closes == 0) { r.count("before_first_completed_state"); continue; }
@@ -293,7 +313,7 @@ int main(int argc, char **argv)
         //  decided by the damaged-state part of this check)
         if ((!lx.empty() && !okx) || (!lo.empty() && !oko)) r.count("torn_files_that_load_without_error");
         if (!okx && !oko)
-          r.violation(std::string("C11:crash:no-complete-state-on-disk:") + (binary ? "binary" : "text") + ":single-crash", det + "}");
+          r.violation(std::string("C11:crash:no-complete-state-on-disk:") + (g_bias_mode ? "bias-level-save" : (binary ? "binary" : "text")) + ":single-crash", det + "}");
         r.seen("nontrivial", fnv(det));
         if (ci % 1201 == 17) r.sample(det + "}");
 
@@ -303,17 +323,21 @@ int main(int argc, char **argv)
           std::string const &survivor = okx ? X : XO;
           std::string d2 = ldir + "/second";
           clean_dir(d2);
-          // the survivor tells us the step to restart from
-          vproxy *pp = new vproxy(2);
-          place(*pp, 0);
-          pp->config(CONF);
-          { std::ofstream f((d2 + "/s.colvars.state").c_str(), std::ios::binary); f.write(survivor.data(), survivor.size()); }
-          pp->set_input_prefix(d2 + "/s");
-          pp->colvars->setup_input();
-          long st = cvm::step_absolute();
-          delete pp;
+          // the survivor tells us the step to restart from (a bias-level save is followed by a new simulation in the same
+          // directory that saves the bias again under the same name)
+          long st = 0;
+          if (!g_bias_mode) {
+            vproxy *pp = new vproxy(2);
+            place(*pp, 0);
+            pp->config(CONF);
+            { std::ofstream f((d2 + "/s.colvars.state").c_str(), std::ios::binary); f.write(survivor.data(), survivor.size()); }
+            pp->set_input_prefix(d2 + "/s");
+            pp->colvars->setup_input();
+            st = cvm::step_absolute();
+            delete pp;
+          }
           clean_dir(d2);
-          Recorded rec2 = record_run(d2, binary != 0, st, st + 2, &survivor, &fs);
+          Recorded rec2 = g_bias_mode ? record_run(d2, false, 0, 2, NULL, &fs) : record_run(d2, binary != 0, st, st + 2, &survivor, &fs);
           // crash points of the second run: operation boundaries and a few byte prefixes of each write
           for (size_t i2 = 0; i2 <= rec2.log.size(); i2++) {
             std::vector<long> ns = {-1};
@@ -329,8 +353,8 @@ int main(int argc, char **argv)
               std::string X2, XO2;
               bool h1 = false, h2 = false;
               for (auto &kv : fs2) {
-                if (base_of(kv.first) == "cc_out.colvars.state") { X2 = kv.second; h1 = true; }
-                if (base_of(kv.first) == "cc_out.colvars.state.old") { XO2 = kv.second; h2 = true; }
+                if (base_of(kv.first) == state_name()) { X2 = kv.second; h1 = true; }
+                if (base_of(kv.first) == state_name() + ".old") { XO2 = kv.second; h2 = true; }
               }
               int k2;
               std::string l1 = h1 ? try_load(X2, ldir, k2) : "", l2 = h2 ? try_load(XO2, ldir, k2) : "";
@@ -347,7 +371,7 @@ int main(int argc, char **argv)
               bool g1 = false, g2 = false;
               for (auto &g : good) { if (!l1.empty() && l1 == g) g1 = true; if (!l2.empty() && l2 == g) g2 = true; }
               if (!g1 && !g2)
-                r.violation(std::string("C11:crash:no-complete-state-on-disk:") + (binary ? "binary" : "text") + ":second-crash-after-restart-from-" + (okx ? "state-file" : "old-backup"),
+                r.violation(std::string("C11:crash:no-complete-state-on-disk:") + (g_bias_mode ? "bias-level-save" : (binary ? "binary" : "text")) + ":second-crash-after-restart-from-" + (okx ? "state-file" : "old-backup"),
                             det + ",\"second_run_crash_after_operations\":" + std::to_string(i2) + ",\"bytes_of_next_write\":" + std::to_string(n2) + "}");
             }
           }
